@@ -112,7 +112,10 @@ func Run(o Opts) (*Result, error) {
 			return nil, err
 		}
 	}
-	args := []string{"-XX:+UseParallelGC", fmt.Sprintf("-Xmx%dm", o.HeapMB), "-Xss256m"}
+	// TLC unpacks its standard modules under java.io.tmpdir (tlc-NNN): keep that inside the scratch dir
+	jtmp := filepath.Join(dir, "jtmp")
+	_ = os.MkdirAll(jtmp, 0o755)
+	args := []string{"-XX:+UseParallelGC", fmt.Sprintf("-Xmx%dm", o.HeapMB), "-Xss256m", "-Djava.io.tmpdir=" + jtmp}
 	if o.DFS {
 		args = append(args, "-Dtlc2.tool.queue.IStateQueue=StateDeque")
 	}
